@@ -2476,6 +2476,15 @@ setattr_trait(
             if ((tnotifiers != NULL) || (onotifiers != NULL)) {
                 value = traito->getattr(traito, obj, name);
                 if (value == NULL) {
+                    /* The default value that takes the deleted value's place
+                       could not be computed: put the value back, so that
+                       the failed deletion changes nothing. */
+                    PyObject *exc_type, *exc_value, *exc_tb;
+                    PyErr_Fetch(&exc_type, &exc_value, &exc_tb);
+                    if (PyDict_SetItem(dict, name, old_value) < 0) {
+                        PyErr_Clear();
+                    }
+                    PyErr_Restore(exc_type, exc_value, exc_tb);
                     Py_DECREF(old_value);
                     return -1;
                 }
